@@ -667,6 +667,12 @@ impl ParserListener for Screen {
         for char in data.chars() {
             let char_width = char.width().unwrap_or(0);
 
+            // Unprintable and zero-width characters other than combining
+            // marks change nothing at all (no wrap either).
+            if char_width == 0 && !is_combining_mark(char) {
+                continue;
+            }
+
             // If this was the last column in a line and auto wrap mode is
             // enabled, move the cursor to the beginning of the next line,
             // otherwise replace characters already displayed with newly
